@@ -53,3 +53,13 @@ def items(tier, rng):
     for lo in range(1, top + 1, step):
         out.append({"name": "luby", "harness": "h_luby", "params": {"lo": lo, "hi": min(top, lo + step - 1)}, "path_wall_s": 3})
     return out
+
+
+def _only_empty_clauses(cex):
+    """The recorded finding: the formula is a non-empty list of EMPTY clauses and there are no assumptions (n_vars == 0 early return)."""
+    ob = cex.get("observed") or {}
+    cl = ob.get("clauses")
+    return isinstance(cl, list) and len(cl) > 0 and all(len(c) == 0 for c in cl) and not ob.get("assumptions")
+
+
+KNOWN_CLASSES = {"only_empty_clauses": _only_empty_clauses}
